@@ -140,6 +140,12 @@ impl<'a, T: Read + Seek> QueueReader<'a, T> {
                     }
                 }
 
+                // Without any record with a non-zero bit size there is nothing to derive the number of items from.
+                // Do not generate any items in this case, otherwise the generation would never stop.
+                if min_queue_size == usize::MAX {
+                    min_queue_size = 0;
+                }
+
                 self.parse_byte_streams(min_queue_size)?;
             }
         };
